@@ -17,7 +17,6 @@ package jobs
 import (
 	"context"
 	"errors"
-	"reflect"
 	"sync"
 	"time"
 
@@ -241,8 +240,13 @@ func (pipeline *IncrementalPipeline) sync(job *job, ctx context.Context) (int, e
 
 						local := func(workId int, lentities []*server.Entity, wg *sync.WaitGroup) {
 							res := presult{}
-							if reflect.TypeOf(pipeline.transform) == reflect.TypeOf(&JavascriptTransform{}) {
-								t := pipeline.transform.(*JavascriptTransform)
+							// a javascript runtime must not be shared by the workers: each gets its own clone,
+							// also when error handlers have wrapped the transform
+							transform := pipeline.transform
+							if wrapped, isWrapped := transform.(*wrappedTransform); isWrapped {
+								transform = wrapped.t
+							}
+							if t, isJs := transform.(*JavascriptTransform); isJs {
 								tc, _ := t.Clone()
 								pe, e := tc.transformEntities(runner, lentities, job.title)
 								res.entities = pe
